@@ -1,4 +1,5 @@
 import Panacea.Lemmas.Pnft
+import Panacea.Lemmas.PnftInv
 /-!
 # C12 — PNFT tokens: unique, immutable, isolated per denom, consistently indexed
 
@@ -7,10 +8,14 @@ refuses a denom that still has tokens) and F9 (identifiers with `0x00` are rejec
 code the monitor `mon.c12` exhibited all three violations on the implementation.
 
 Proved here: uniqueness of ids, immutability of token metadata, non-aliasing of `(denom, token)` pairs on
-the identifiers the validators admit, and exactness of `DenomsByOwner`.  **Partial:** "every existing token
-belongs to an existing denom" needs the counting invariant `supply d = #tokens of d`, which is exercised
-by the correspondence stream and `mon.c12` (orphan check after every history) but is not yet a theorem;
-`PNFTs`/`PNFTsByDenomOwner` listing exactness likewise.
+the identifiers the validators admit, exactness of `DenomsByOwner`; and, from the counting invariant `PInv`
+(the stored total supply of a denom is the number of token entries under its listing prefix; token and class
+entries are keyed by their own identifiers; proved for the empty store and preserved by every message while
+fewer than `2^64` tokens exist): **every existing token belongs to an existing denom**
+(`token_belongs_to_existing_denom`), the `PNFTs` listing of a denom returns exactly the tokens of that denom
+(`pnfts_listing_exact`) and as many as its total supply says (`pnfts_listing_length`).
+**Partial:** exactness of `PNFTsByDenomOwner` (owner index) is covered by the correspondence stream and
+`mon.c12` only.
 -/
 namespace Panacea.C12
 open Panacea CompKey Validate Pnft
@@ -96,6 +101,65 @@ theorem delete_nonempty_refused (c : AddrCodec) (now : Int) (s : State) (id rm :
   | ok s' => obtain ⟨_, _, _, hs, _⟩ := deleteDenom_ok h; exact absurd hs h0
   | err e => rfl
   | panic e => rfl
+
+
+/-! ## The counting invariant and what follows from it -/
+
+theorem pinv_genesis : PInv {} := pinv_empty
+
+theorem pinv_reachable (c : AddrCodec) (s : State) (B : Nat) (ops : List (Int × PnftMsg))
+    (hi : PInv s) (hb : Pnft.Below s B) (hlt : B + ops.length < 2 ^ 64) : PInv (run c s ops) :=
+  (pinv_run ops hi hb (by simpa using hlt)).1
+
+/-- **Every existing token belongs to an existing denom**, in every reachable state. -/
+theorem token_belongs_to_existing_denom (s : State) (hi : PInv s) (k : Bytes) (n : Nft)
+    (h : s.nfts.get k = some n) : hasClass s n.classId = true ∧ k = nftKey n.classId n.id :=
+  ⟨hi.tokenClass k n h, (hi.tokenKey k n h).1⟩
+
+/-- the single-item view: a token that `Query/PNFT` returns lives in an existing denom -/
+theorem queried_token_has_denom (c : AddrCodec) (s : State) (hi : PInv s) (d i : Bytes) (p : Pnft.Pnft)
+    (h : queryPNFT c s d i = some p) : hasClass s p.denomId = true := by
+  unfold queryPNFT getPNFT at h
+  cases hg : s.nfts.get (nftKey d i) with
+  | none => simp [hg] at h
+  | some n =>
+    simp only [hg, Option.map_some, Option.some.injEq] at h
+    subst h
+    exact hi.tokenClass _ n hg
+
+/-- **`PNFTs` listing exactness**: for a denom identifier the validators admit, the listing iterates over
+exactly the stored tokens whose class is that denom (never another denom's tokens, none missing). -/
+theorem pnfts_listing_exact (s : State) (hi : PInv s) (d : Bytes) (hd : NoNul d) (n : Nft) :
+    (∃ i, (i, n) ∈ s.nfts.prefixView (d ++ [0x00])) ↔ (∃ k, s.nfts.get k = some n ∧ n.classId = d) := by
+  constructor
+  · rintro ⟨i, hm⟩
+    have hmem := Map.mem_prefixView.mp hm
+    have hg := Map.get_of_mem_sorted hi.sortedN hmem
+    obtain ⟨hk, hcn, hin⟩ := hi.tokenKey _ n hg
+    refine ⟨_, hg, ?_⟩
+    have hp : (d ++ [0x00]) <+: nftKey n.classId n.id := by
+      rw [← hk]; exact List.prefix_append _ _
+    exact ((listPrefix_iff hd hcn).mp hp).symm
+  · rintro ⟨k, hg, rfl⟩
+    obtain ⟨hk, _, _⟩ := hi.tokenKey k n hg
+    refine ⟨n.id, Map.mem_prefixView.mpr ?_⟩
+    have : n.classId ++ [0x00] ++ n.id = k := by rw [hk]; simp [nftKey]
+    rw [this]
+    exact Map.mem_of_get hg
+
+/-- … and it has as many entries as the denom's total supply says. -/
+theorem pnfts_listing_length (c : AddrCodec) (s : State) (hi : PInv s) (d : Bytes) (hd : NoNul d) :
+    (queryPNFTs c s d).length = getSupply s d := by
+  unfold queryPNFTs
+  rw [List.length_map, Map.prefixView_length, hi.supplyCount d hd]
+
+/-- non-vacuity: a reachable state with two denoms and tokens, and the invariant's content on it -/
+example : getSupply (run { enc := id, dec := fun s => if s.length = 20 then some s else none } {}
+    [(1, .createDenom [0x64] [0x6e] [0x73] [] [] [] [] (List.replicate 20 1)),
+     (2, .mintPNFT [0x64] [0x31] [0x6e] [] [] [] [] (List.replicate 20 1)),
+     (3, .mintPNFT [0x64] [0x32] [0x6e] [] [] [] [] (List.replicate 20 1)),
+     (4, .burnPNFT [0x64] [0x31] (List.replicate 20 1)),
+     (5, .deleteDenom [0x64] (List.replicate 20 1))]) [0x64] = 1 := by decide
 
 example : nftKey [0x61] [0x62, 0x00, 0x63] = nftKey [0x61, 0x00, 0x62] [0x63] := by decide  -- why NUL had to go
 
